@@ -186,6 +186,14 @@ ENTRIES_UNDER_RANDOMNESS_IN_WORKLOAD = os.environ.get('VERIF_C36_ENTRIES_UNDER_R
 #       re-bound key to `expr` instead of `new_key`, so the node that was sent aggregated the KEY and every aggregated field was gone.
 RANDOM_GROUP_KEY_IN_WORKLOAD = os.environ.get('VERIF_C36_RANDOM_GROUP_KEY', '1') == '1'
 
+# Table.union(unify=True) over tables whose VALUE fields agree in name, order and type but whose KEY fields sit at different positions of
+# the row struct (e.g. `t.key_by(ks=...)`: row {idx, ks, v} against `t.select('idx', 'v')`: row {ks, idx, v}) in the nary workload.  OFF by
+# default: on the unchanged tree it witnesses a GENUINE disagreement (validation record G4): `union` decides that there is nothing to
+# unify from `row_value.dtype` alone, emits TableUnion over children whose row types differ in field order, which the engine's TypeCheck
+# rejects (VERIF_C36_UNION_KEY_POSITION=1 to turn on; witnesses are attributed to
+# `relational/TableUnion-children-differ-in-key-position-after-union-unify`).
+UNION_KEY_POSITION_IN_WORKLOAD = os.environ.get('VERIF_C36_UNION_KEY_POSITION', '0') == '1'
+
 # IR classes whose "rule" merely returns a type stored at construction (no derivation from children)
 VACUOUS = {'Ref', 'TopLevelReference', 'Apply', 'ApplySeeded', 'NA', 'Literal', 'EncodedLiteral', 'Cast', 'Die', 'Recur', 'JavaIR',
            'SelectedTopLevelReference', 'ProjectedTopLevelReference'}
@@ -2363,6 +2371,321 @@ def run(ctx):
     N = ctx.pick(70, 450)
     for i, rng in ctx.cases(N, 'matrix-sent'):
         matrix_case(i, rng, True)
+
+    # ---- phase nary: nodes that combine SEVERAL relational children ---------------------------------------------------
+    # TableUnion / TableMultiWayZipJoin / MatrixUnionRows / MatrixUnionCols are typed from their FIRST child only (Python rule and engine
+    # `typ` alike); that the other children have the same type is what the front-end METHOD has to establish (Table.union(unify=True)
+    # re-selects every table onto the unified field list, casting numeric fields to the common type; the others compare and refuse) and
+    # what the engine asserts in TypeCheck.scala (transcribed in vf/hail_relational_rules.py, evaluated on the emitted and on the rebuilt
+    # tree).  The cases: 2..4 tables derived from one table whose value fields have the SAME NAMES but other -- unifiable -- numeric types
+    # (int32 / int64 / float32 / float64, arrays of them), in the same or another field order, with missing / extra fields, with
+    # unify True / False, either one as the receiver, some carrying seeded randomness; then expressions over the unified fields.
+    NUMS = [hl.tint32, hl.tint64, hl.tfloat32, hl.tfloat64]
+    RANK = {ty: k for k, ty in enumerate(NUMS)}
+
+    def is_num(ty):
+        return ty in RANK
+
+    def is_numarr(ty):
+        return isinstance(ty, hl.tarray) and ty.element_type in RANK
+
+    def cast(e, ty):
+        if isinstance(ty, hl.tarray):
+            return e.map(lambda x: cast(x, ty.element_type))
+        return {hl.tint32: hl.int32, hl.tint64: hl.int64, hl.tfloat32: hl.float32, hl.tfloat64: hl.float64}[ty](e)
+
+    def unified(types):
+        """what Table.union(unify=True) means for one field: the common type all can be coerced to, None if there is none"""
+        ts = list(types)
+        if all(x == ts[0] for x in ts):
+            return ts[0]
+        if all(is_num(x) for x in ts):
+            return max(ts, key=lambda x: RANK[x])
+        if all(is_numarr(x) for x in ts):
+            return hl.tarray(max((x.element_type for x in ts), key=lambda x: RANK[x]))
+        return None
+
+    def derive_sibling(rng, t, key, fields, exact):
+        """a table with the same key as `t` whose value fields are those of `t` re-typed / re-ordered / dropped / extended;
+        returns (table, ordered {value field: type})"""
+        s = t
+        f2 = dict(fields)
+        if not exact:
+            for f, ty in fields.items():
+                if rng.random() < 0.55:
+                    if is_num(ty):
+                        nt = rng.choice(NUMS)
+                    elif is_numarr(ty):
+                        nt = hl.tarray(rng.choice(NUMS))
+                    else:
+                        continue
+                    if nt != ty:
+                        s = s.annotate(**{f: cast(s[f], nt)})     # (an overwritten field keeps its position)
+                        f2[f] = nt
+            r = rng.random()
+            names = list(f2)
+            if r < 0.3 and len(names) > 1:
+                rng.shuffle(names)
+                s = s.select(*names)
+                f2 = {f: f2[f] for f in names}
+                ctx.count('nary_sibling_reordered')
+            elif r < 0.45 and names:
+                d = rng.choice(names)
+                s = s.drop(d)
+                del f2[d]
+                ctx.count('nary_sibling_missing_field')
+            elif r < 0.6:
+                nn = 'x' + str(rng.randint(0, 3))
+                if nn not in f2 and nn not in key:
+                    ty = rng.choice(NUMS + [hl.tstr])
+                    s = s.annotate(**{nn: hl.str('e') if ty == hl.tstr else cast(hl.int32(1), ty)})
+                    f2[nn] = ty
+                    ctx.count('nary_sibling_extra_field')
+            elif r < 0.74 and names and list(t.row.dtype)[:len(key)] != list(key):
+                # the same value fields in the same order, only the KEY moves to the front of the row (select re-lays the row out)
+                s = s.select(*names)
+                ctx.count('nary_sibling_key_moved_only')
+            elif r < 0.8 and names:
+                # a field that CANNOT be unified (str where the others have a number): the method has to refuse
+                d = rng.choice(names)
+                if f2[d] != hl.tstr:
+                    s = s.annotate(**{d: hl.str('q')})
+                    f2[d] = hl.tstr
+        r = rng.random()
+        if r < 0.25:
+            s = s.filter(hl.rand_bool(0.7))
+        elif r < 0.35:
+            s = s.head(2)
+        return s, f2
+
+    def nary_table_case(i, rng):
+        et.reset()
+        et_sent.reset()
+        trace = []
+        n = rng.randint(2, 6)
+        t = hl.utils.range_table(n)
+        key = ['idx']
+        if rng.random() < 0.3:
+            t = t.key_by(ks=hl.str(t.idx))
+            key = ['ks']
+        # 1..3 numeric value fields (scalars and arrays), sometimes a string too
+        fields = {}
+        if key == ['ks']:
+            fields['idx'] = hl.tint32
+        kw = {}
+        for j in range(rng.randint(1, 3)):
+            ty = rng.choice(NUMS + NUMS + [hl.tarray(hl.tint32), hl.tarray(hl.tfloat64)])
+            kw[f'v{j}'] = cast(t.idx + j, ty.element_type if isinstance(ty, hl.tarray) else ty) if not isinstance(ty, hl.tarray) else cast(hl.range(t.idx % 3), ty)
+            fields[f'v{j}'] = ty
+        if rng.random() < 0.3:
+            kw['s'] = hl.str(t.idx)
+            fields['s'] = hl.tstr
+        ok, t = guarded('annotate', lambda: t.annotate(**kw))
+        if not ok:
+            flush(None, ('nary-source-rejected', i), {})
+            return
+        keyt = {k: t[k].dtype for k in key}
+        m = TModel({}, {**keyt, **fields}, key)
+        check_table(t, m, 'nary source')
+        kind = rng.choice(['union', 'union', 'union', 'union', 'mwzj'])
+        unify = kind == 'union' and rng.random() < 0.75
+        exact = kind == 'union' and not unify and rng.random() < 0.6       # without unify only identical row types are accepted
+        if kind == 'mwzj':
+            exact = rng.random() < 0.6
+        tables = [(t, dict(fields))]
+        for _k in range(rng.choice([1, 1, 2, 3])):
+            ok, sib = guarded('sibling', lambda: derive_sibling(rng, t, key, fields, exact))
+            if ok:
+                tables.append(sib)
+        if len(tables) < 2:
+            flush(None, ('nary-no-siblings', i), {})
+            return
+        rng.shuffle(tables)                                              # either one is the receiver
+        tabs = [x for x, _ in tables]
+        fss = [f for _, f in tables]
+        rows_equal = all(x.row.dtype == tabs[0].row.dtype for x in tabs)                 # (field order of the whole row included)
+        values_equal = all(list(f.items()) == list(fss[0].items()) for f in fss)        # what `union` looks at: row_value.dtype
+        key_position_only = values_equal and not rows_equal
+        if key_position_only and kind == 'union' and unify:
+            ctx.count('unions_unify_over_tables_that_differ_only_in_key_position')
+            if not UNION_KEY_POSITION_IN_WORKLOAD:
+                flush({'ops': ['union(unify=True): key position only (switched off)']}, ('nary-key-position-switched-off', i), {})
+                return
+        nary_start = len(hook.pending)
+        names = []
+        for f in fss:
+            names += [k for k in f if k not in names]
+        uni = {k: unified([f[k] for f in fss if k in f]) for k in names}
+        ctx.count('nary_cases')
+        if kind == 'union':
+            expect_ok = rows_equal or (unify and all(v is not None for v in uni.values()))
+            m2 = TModel({}, {**keyt, **(fss[0] if values_equal else uni)}, key)
+            widening = any(len({f[k] for f in fss if k in f}) > 1 for k in names)
+            conforming_other_type = unify and not values_equal and any(list(f) == names and any(f[k] != uni[k] for k in names) for f in fss)
+            ok, u = guarded(f'union(unify={unify})', lambda: tabs[0].union(*tabs[1:], unify=unify))
+            what = f'union(unify={unify})'
+        else:
+            expect_ok = rows_equal
+            m2 = TModel({'mw_gl': hl.tarray(hl.tstruct())}, {**keyt, 'mw_data': hl.tarray(hl.tstruct(**fss[0]))}, key)
+            widening = conforming_other_type = False
+            ok, u = guarded('multi_way_zip_join', lambda: hl.Table.multi_way_zip_join(tabs, 'mw_data', 'mw_gl'))
+            what = 'multi_way_zip_join'
+        ctx.count(f'nary_{kind}_{"accepted" if ok else "refused"}')
+        if ok != expect_ok:
+            # (not a type disagreement by itself: recorded; an ACCEPTED combination the engine cannot type is what the rules catch)
+            ctx.count('nary_acceptance_differs_from_documented_meaning')
+            ctx.seen('nary_acceptance_surprises', f'{what}: accepted={ok}, rows_equal={rows_equal}, unifiable={all(v is not None for v in uni.values())}')
+        if not ok:
+            trace.append(what + ':refused')
+            flush({'ops': trace}, ('nary', tuple(trace), str([list(f.items()) for f in fss])[:300]), {'ops': trace})
+            return
+        trace.append(what)
+        if kind == 'union':
+            ctx.count(f'unions_accepted:unify={unify}')
+            if len(tabs) > 2:
+                ctx.count('unions_of_3plus_tables')
+            if not values_equal:
+                ctx.count('unions_over_different_row_types')
+                if widening:
+                    ctx.count('unions_with_numeric_widening')
+                if conforming_other_type:
+                    ctx.count('unions_where_a_table_has_the_unified_names_and_order_but_another_numeric_type')
+                if any(list(f) != names for f in fss):
+                    ctx.count('unions_with_reordered_missing_or_extra_fields')
+                if any(fss[0].get(k) != uni[k] for k in names):
+                    ctx.count('unions_whose_receiver_needs_casting')
+        elif not rows_equal:
+            ctx.count('nary_mwzj_accepted_over_different_row_types')
+        check_table(u, m2 if expect_ok else None, what)
+        # expressions over the unified fields: their reported types rest on the reported row type of the n-ary node
+        if kind == 'union':
+            cand = [k for k in names if k in u.row.dtype and (is_num(u[k].dtype) or is_numarr(u[k].dtype))]
+            if cand:
+                f = rng.choice(cand)
+                ty = m2.row.get(f, u[f].dtype)
+                m3 = m2.copy()
+                m3.row['dn'] = ty
+                m3.row['dd'] = hl.tbool
+
+                def _down(u=u, f=f):
+                    e = u[f].map(lambda x: x + 1) if isinstance(u[f].dtype, hl.tarray) else u[f] + 1
+                    return u.annotate(dn=e, dd=hl.is_defined(u[f]))
+
+                ok, u2 = guarded('annotate(over unified field)', _down)
+                if ok:
+                    ctx.count('unions_downstream_over_unified_field')
+                    u = u2
+                    trace.append('downstream')
+                    check_table(u, m3 if expect_ok else None, 'annotate over the unified field')
+        r = rng.random()
+        if r < 0.4:
+            ok, u2 = guarded('filter', lambda: u.filter(hl.rand_bool(0.5)))
+        elif r < 0.7:
+            ok, u2 = guarded('annotate', lambda: u.annotate(rr=hl.rand_unif(0.0, 1.0)).drop('rr'))
+        else:
+            ok, u2 = False, None
+        if ok:
+            u = u2
+            trace.append('random consumer')
+        sent_check_table(u, 'the finished program', final=True)
+        finish_program(u._tir, True, 'nary')
+        if key_position_only and kind == 'union' and unify:
+            for j in range(nary_start, len(hook.pending)):
+                k, w, wit = hook.pending[j]
+                if 'TableUnion-engine-rule-rejects' in k:
+                    hook.pending[j] = ('relational/TableUnion-children-differ-in-key-position-after-union-unify', f'{w} [symptom: {k}]', wit)
+        flush({'ops': trace, 'type': str(u._tir.typ)[:300]}, ('nary', tuple(trace), str(u._tir.typ)), {'ops': trace, 'tables': [str(list(f.items())) for f in fss], 'table_type': str(u._tir.typ)[:800]})
+
+    def nary_matrix_case(i, rng):
+        et.reset()
+        et_sent.reset()
+        trace = []
+        mt = hl.utils.range_matrix_table(rng.randint(1, 3), rng.randint(1, 3))
+        ty = {'e1': rng.choice(NUMS), 'c1': rng.choice(NUMS), 'r1': rng.choice(NUMS)}
+
+        def build(mt, ty):
+            mt = mt.annotate_entries(e1=cast(mt.row_idx + mt.col_idx, ty['e1']))
+            mt = mt.annotate_cols(c1=cast(mt.col_idx, ty['c1']))
+            return mt.annotate_rows(r1=cast(mt.row_idx, ty['r1']))
+
+        ok, mt = guarded('build', lambda: build(mt, ty))
+        if not ok:
+            flush(None, ('nary-matrix-source-rejected', i), {})
+            return
+        m = MModel({}, {'row_idx': hl.tint32, 'r1': ty['r1']}, {'col_idx': hl.tint32, 'c1': ty['c1']}, {'e1': ty['e1']}, ['row_idx'], ['col_idx'])
+        check_matrix(mt, m, 'nary matrix source')
+        kind = rng.choice(['union_rows', 'union_cols'])
+        sibs = []
+        for _k in range(rng.choice([1, 1, 2]) if kind == 'union_rows' else 1):
+            ty2 = dict(ty)
+            for f in ty2:
+                if rng.random() < 0.4:
+                    ty2[f] = rng.choice(NUMS)
+
+            def sib(ty2=ty2):
+                s_ = mt
+                for f, ann in (('e1', 'annotate_entries'), ('c1', 'annotate_cols'), ('r1', 'annotate_rows')):
+                    if ty2[f] != ty[f]:
+                        s_ = getattr(s_, ann)(**{f: cast(s_[f], ty2[f])})
+                if rng.random() < 0.3:
+                    s_ = s_.filter_rows(hl.rand_bool(0.7))
+                return s_
+
+            ok, s_ = guarded('sibling', sib)
+            if ok:
+                sibs.append((s_, ty2))
+        if not sibs:
+            flush(None, ('nary-matrix-no-siblings', i), {})
+            return
+        ctx.count('nary_cases')
+        tables = [(mt, ty)] + sibs
+        rng.shuffle(tables)
+        tys = [x for _, x in tables]
+        mts = [x for x, _ in tables]
+        first = tys[0]
+        m2 = MModel({}, {'row_idx': hl.tint32, 'r1': first['r1']}, {'col_idx': hl.tint32, 'c1': first['c1']}, {'e1': first['e1']}, ['row_idx'], ['col_idx'])
+        if kind == 'union_rows':
+            # union_rows compares row types, entry types and col KEY types (column VALUE fields may differ: the first table's are kept)
+            expect_ok = all(x['r1'] == first['r1'] and x['e1'] == first['e1'] for x in tys)
+            ok, u = guarded(kind, lambda: hl.MatrixTable.union_rows(*mts, _check_cols=False))
+        else:
+            # union_cols compares entry types, col types and row KEY types (the right table's row VALUE fields are dropped)
+            expect_ok = all(x['c1'] == first['c1'] and x['e1'] == first['e1'] for x in tys)
+            ok, u = guarded(kind, lambda: mts[0].union_cols(mts[1], row_join_type=rng.choice(['inner', 'outer'])))
+        ctx.count(f'nary_{kind}_{"accepted" if ok else "refused"}')
+        if ok != expect_ok:
+            ctx.count('nary_acceptance_differs_from_documented_meaning')
+            ctx.seen('nary_acceptance_surprises', f'{kind}: accepted={ok}, types={[sorted((k, str(v)) for k, v in x.items()) for x in tys]}'[:200])
+        if not ok:
+            trace.append(kind + ':refused')
+            flush({'ops': trace}, ('nary', tuple(trace), str(tys)[:300]), {'ops': trace})
+            return
+        trace.append(kind)
+        if any(x != first for x in tys):
+            ctx.count(f'nary_{kind}_accepted_over_tables_that_differ_in_a_field_the_method_need_not_compare')
+        check_matrix(u, m2 if expect_ok else None, kind)
+        ok, u2 = guarded('annotate_entries(over unified field)', lambda: u.annotate_entries(dn=u.e1 + 1, dr=u.r1 + 1, dc=u.c1 + 1))
+        if ok:
+            m3 = copy.deepcopy(m2)
+            m3.entry.update({'dn': first['e1'], 'dr': first['r1'], 'dc': first['c1']})
+            u = u2
+            trace.append('downstream')
+            check_matrix(u, m3 if expect_ok else None, 'annotate_entries over the unified fields')
+        if rng.random() < 0.5:
+            ok, u2 = guarded('filter_entries', lambda: u.filter_entries(hl.rand_bool(0.5)))
+            if ok:
+                u = u2
+                trace.append('random consumer')
+        sent_check_matrix(u, 'the finished program', final=True)
+        finish_program(u._mir, True, 'nary')
+        flush({'ops': trace, 'type': str(u._mir.typ)[:300]}, ('nary', tuple(trace), str(u._mir.typ)), {'ops': trace, 'matrix_type': str(u._mir.typ)[:800]})
+
+    N = ctx.pick(100, 800)
+    for i, rng in ctx.cases(N, 'nary'):
+        if rng.random() < 0.78:
+            nary_table_case(i, rng)
+        else:
+            nary_matrix_case(i, rng)
 
     hook.uninstall()
     del backend.matrix_type
